@@ -130,3 +130,25 @@ Qed.
 (* selection keeps exactly the flagged chains: the partial sum *)
 Lemma select_all {A} (l : list A) : select (repeat true (length l)) l = l.
 Proof. unfold select. induction l as [|x l IH]; simpl; [reflexivity|]. f_equal. exact IH. Qed.
+
+(* ---------- chain order (C02) ---------- *)
+From Coq Require Import Permutation.
+Lemma Cadd_comm (a b : C) : Cadd a b = Cadd b a.
+Proof. destruct a, b. unfold Cadd; simpl. f_equal; ring. Qed.
+Lemma Cadd_assoc (a b c : C) : Cadd a (Cadd b c) = Cadd (Cadd a b) c.
+Proof. destruct a, b, c. unfold Cadd; simpl. f_equal; ring. Qed.
+Lemma vadd_comm a b : vadd a b = vadd b a.
+Proof. revert b. induction a as [|x a IH]; intros [|y b]; simpl; try reflexivity. rewrite Cadd_comm, IH. reflexivity. Qed.
+Lemma vadd_assoc a b c : vadd a (vadd b c) = vadd (vadd a b) c.
+Proof.
+  revert b c. induction a as [|x a IH]; intros [|y b] [|z c]; simpl; try reflexivity.
+  rewrite Cadd_assoc, IH. reflexivity.
+Qed.
+Theorem vsum_perm n cs cs' : Permutation cs cs' -> vsum n cs = vsum n cs'.
+Proof.
+  induction 1 as [|x l l' _ IH|x y l|l1 l2 l3 _ IH1 _ IH2]; simpl.
+  - reflexivity.
+  - rewrite IH. reflexivity.
+  - rewrite !vadd_assoc, (vadd_comm y x). reflexivity.
+  - rewrite IH1. exact IH2.
+Qed.
